@@ -51,6 +51,7 @@ struct ItemSpec {
     closures: Vec<(usize, Vec<String>)>, // n-th closure: text spliced between `|..|` and body
     closure_params: Vec<(usize, Vec<String>)>, // n-th closure: explicit parameter types
     drop_derive: Vec<String>,
+    viter_skip: Vec<String>,
     forpat: bool,
     fmt_nonempty: bool,
     viter: bool,                         // apply R5 (iterator entry) to this item
@@ -322,6 +323,7 @@ fn parse_template(text: &str) -> Vec<Result<String, ItemSpec>> {
                         "params" => { if let Some(f) = spec.fragment.as_mut() { f.params = arg.to_string(); } else { die("//@params outside //@frag"); } }
                         "ret" => { if let Some(f) = spec.fragment.as_mut() { f.ret = arg.to_string(); } else { spec.ret = Some(arg.to_string()); } }
                         "viter" => spec.viter = true,
+                        "viter-skip" => spec.viter_skip.push(arg.to_string()),
                         "forpat" => spec.forpat = true,
                         "fmt-nonempty" => spec.fmt_nonempty = true,
                         "drop-derive" => spec.drop_derive.push(arg.to_string()),
@@ -700,6 +702,7 @@ fn emit_item(
     }
     let file = spec.file.as_str();
     rewrite::DROP_DERIVES.with(|d| *d.borrow_mut() = spec.drop_derive.clone());
+    rewrite::VITER_SKIP.with(|d| *d.borrow_mut() = spec.viter_skip.clone());
     let found = find(parsed, &spec.selector);
     if found.len() != 1 {
         die(&format!(
